@@ -302,6 +302,7 @@ Print Assumptions c10_clock_monotone.
      the outside time dt                          (start, resume, fetch),
      tuner_sleep_time                             (a tuner sleep; nothing else),
      nothing                                      (busy_trial_ids),
+     max(to, clock) - clock                       (a direct time_keeper.advance_to(to): never backwards),
      the blocking stop/pause formula              (stop, pause),
    and the outside time / sleep time is >= 0 (a negative step raises). *)
 Theorem c10_sleep_once :
@@ -441,4 +442,13 @@ Example c10_fidelity_grid_example :
       (run_ops ex_settings_f [[[mkRow 1 [5]; mkRow 2 [6]; mkRow 4 [7]]]] (fun _ => 0%nat) init_state
                [OpStart (mkCfg 0 None) 0; OpFetch [0%nat] (3#2); OpPause 0 (Some 2%nat) 0; OpResume 0 None 0; OpFetch [0%nat] 9])
   = [[]; [(2%nat, 1, [5])]; []; []; [(4%nat, 1, [6]); (6%nat, 3, [7])]].
+Proof. vm_compute. reflexivity. Qed.
+
+(* time_keeper.advance_to with targets above and below the clock, between backend calls: the clock
+   never moves backwards *)
+Example c10_advance_to_example :
+  map (fun x => match x with Ok (st, _) => Qred (clock st) | Err _ => -1 end)
+      (run_ops ex_settings ex_table (fun _ => 0%nat) init_state
+               [OpAdvanceTo 3; OpAdvanceTo 1; OpStart (mkCfg 0 None) (1#2); OpAdvanceTo (-2); OpFetch [0%nat] 0; OpAdvanceTo 10])
+  = [3; 3; 7#2; 7#2; 7#2; 10].
 Proof. vm_compute. reflexivity. Qed.
